@@ -50,8 +50,26 @@ VARIANTS = {
 }
 
 
+def repo_tag():
+    return "" if REPO == "/repo" else "-" + hashlib.sha1(REPO.encode()).hexdigest()[:8]
+
+
 def target_dir(variant):
-    return os.path.join(WORK, "target", variant)
+    return os.path.join(WORK, "target" + repo_tag(), variant)
+
+
+def harness_dir():
+    """The harness crate. When JBV_REPO points at another tree (scratch worktree experiments),
+    a copy of the crate whose jbonsai dependency points there is used instead."""
+    if REPO == "/repo":
+        return HARNESS
+    dst = os.path.join(WORK, "harness-src" + repo_tag())
+    os.makedirs(dst, exist_ok=True)
+    subprocess.run(["rsync", "-a", "--delete", "--exclude", "target", "--exclude", "Cargo.lock", HARNESS + "/", dst + "/"], check=True)
+    ct = os.path.join(dst, "Cargo.toml")
+    txt = open(ct).read().replace('path = "/repo"', f'path = "{REPO}"')
+    open(ct, "w").write(txt)
+    return dst
 
 
 def build(variant):
@@ -62,7 +80,8 @@ def build(variant):
     try:
         # the harness pins /repo's lock file
         src = os.path.join(REPO, "Cargo.lock")
-        dst = os.path.join(HARNESS, "Cargo.lock")
+        hdir = harness_dir()
+        dst = os.path.join(hdir, "Cargo.lock")
         if os.path.exists(src) and not os.path.exists(dst):
             shutil.copy(src, dst)
         if variant == "miri":
@@ -72,7 +91,7 @@ def build(variant):
         env.update(extra)
         env["CARGO_TARGET_DIR"] = target_dir(variant)
         t0 = time.time()
-        p = subprocess.run(["cargo", "+nightly"] + args, cwd=HARNESS, env=env, stdout=subprocess.PIPE, stderr=subprocess.STDOUT, text=True)
+        p = subprocess.run(["cargo", "+nightly"] + args, cwd=hdir, env=env, stdout=subprocess.PIPE, stderr=subprocess.STDOUT, text=True)
         log(f"build {variant}: exit {p.returncode} in {time.time() - t0:.1f}s")
         return p.returncode == 0, p.stdout
     finally:
@@ -110,7 +129,7 @@ def run_shards(variant, prop, tier, seed, nshards, out_dir, extra_args, timeout_
             penv["CARGO_TARGET_DIR"] = target_dir("miri")
         so = open(os.path.join(out_dir, f"shard-{i}.stdout"), "w")
         se = open(os.path.join(out_dir, f"shard-{i}.stderr"), "w")
-        cwd = HARNESS if variant == "miri" else VERIF
+        cwd = harness_dir() if variant == "miri" else VERIF
         p = subprocess.Popen(cmd, cwd=cwd, env=penv, stdout=so, stderr=se, start_new_session=True)
         procs.append((i, p, so, se))
     deadline = time.time() + timeout_s
@@ -324,7 +343,7 @@ def run_canary(variant, mode):
         cmd = ["cargo", "+nightly", "miri", "run", "--profile", "checked", "--bin", "canary", "--", mode]
         env["MIRIFLAGS"] = "-Zmiri-disable-isolation"
         env["CARGO_TARGET_DIR"] = target_dir("miri")
-        cwd = HARNESS
+        cwd = harness_dir()
     else:
         cmd = [binary(variant, "canary"), mode]
         cwd = VERIF
